@@ -139,6 +139,11 @@ type vfE2H struct {
 	busyMu    sync.Mutex
 	busy      map[int64]bool
 	nbusy     int64
+	// audit B19: the pump's sampling branch counted at the drop site (hook proto.pump.sampleDrop, present when the
+	// tree has fixes/F50) vs. the drops the harness infers by elimination: inferred > observed = a silent loss
+	sdropSeen     int64
+	sdropInferred int64
+	sdropHook     bool
 	nOps      int
 	aborted   bool
 	quiet     bool // replay mode prints side by side
@@ -306,6 +311,10 @@ func (h *vfE2H) start(cfg vfE2Cfg) {
 		h.busy[g] = true
 		h.busyMu.Unlock()
 	})
+	atomic.StoreInt64(&h.sdropSeen, 0)
+	h.sdropInferred = 0
+	h.sdropHook = vfE2TreeHasPoint("proto.pump.sampleDrop")
+	VerifSetHook("proto.pump.sampleDrop", func(string) { atomic.AddInt64(&h.sdropSeen, 1) })
 	h.guardGate.Store(func() {})
 	h.micro = false
 	VerifSetHook("proto.pump.afterGuard", func(string) {
@@ -1128,9 +1137,28 @@ func (h *vfE2H) observe() {
 				ch.sampled[seq] = true
 				h.emit(fmt.Sprintf("sdrop %d %d", sampler, seq), "ok")
 				h.count("obs:sdrop")
+				h.sdropInferred++
+			}
+			if seen := atomic.LoadInt64(&h.sdropSeen); h.sdropHook && len(gone) > 0 {
+				if h.sdropInferred > seen {
+					h.fail("sample-drop", "channel %s: %d message(s) vanished while the sampling consumer k%d was ready (inferred as sampling drops: %v), but the pump's sampling branch (hook proto.pump.sampleDrop) dropped only %d in this episode — a silent loss would be absorbed as a sampling drop",
+						ch.name, h.sdropInferred, sampler, gone, seen)
+				} else {
+					h.count("obs:sdrop:observed-at-site")
+				}
 			}
 		}
 	}
+}
+
+// vfE2TreeHasPoint: does the tree under test contain the hook point (fixes/F50 adds proto.pump.sampleDrop)?
+func vfE2TreeHasPoint(name string) bool {
+	repo := os.Getenv("VERIF_REPO")
+	if repo == "" {
+		repo = "/repo"
+	}
+	b, err := os.ReadFile(filepath.Join(repo, "nsqd", "protocol_v2.go"))
+	return err == nil && strings.Contains(string(b), "verifPoint(\""+name+"\")")
 }
 
 // oracleDeliver: the direct checks of C02/C03 on the frames themselves.
@@ -1287,6 +1315,131 @@ func vfE2RowsText(b []byte, withClients bool) map[string]string {
 	return rows
 }
 
+// audit B14 — the canonical form of one /stats answer that the Lean driver derives from
+// Model.ChanStats.rows fmt (filterSnap ft fc incl (snapshot s)) (`statsq` lines): rows sorted by (topic id, channel id),
+// topic "T<t> depth bdepth mc paused[ b=bytes]", channel "C<t>/<c> depth bdepth inflight deferred mc rq to paused[ n=clients][ cl=[…]]"
+type vfE2SqRow struct {
+	t, c int // c = -1: topic row
+	s    string
+}
+
+func vfE2SqIDs(topic, channel string) (int, int) {
+	t, c := -1, -1
+	fmt.Sscanf(topic, "t%d", &t)
+	if channel != "" {
+		fmt.Sscanf(strings.TrimSuffix(channel, "#ephemeral"), "c%d", &c)
+	}
+	return t, c
+}
+
+func vfE2SqJoin(rows []vfE2SqRow) string {
+	if len(rows) == 0 {
+		return "-"
+	}
+	sort.SliceStable(rows, func(i, j int) bool {
+		if rows[i].t != rows[j].t {
+			return rows[i].t < rows[j].t
+		}
+		return rows[i].c < rows[j].c
+	})
+	var out []string
+	for _, r := range rows {
+		out = append(out, r.s)
+	}
+	return strings.Join(out, "; ")
+}
+
+func vfE2SqP(p bool) int {
+	if p {
+		return 1
+	}
+	return 0
+}
+
+func vfE2StatsqJSON(b []byte, withClients bool) (string, error) {
+	var doc struct {
+		Topics []vfE2JT `json:"topics"`
+	}
+	if err := json.Unmarshal(b, &doc); err != nil {
+		return "", err
+	}
+	var rows []vfE2SqRow
+	for _, t := range doc.Topics {
+		tid, _ := vfE2SqIDs(t.TopicName, "")
+		rows = append(rows, vfE2SqRow{tid, -1, fmt.Sprintf("T%d %d %d %d %d b=%d", tid, t.Depth, t.BackendDepth, t.MessageCount, vfE2SqP(t.Paused), t.MessageBytes)})
+		for _, c := range t.Channels {
+			_, cid := vfE2SqIDs(t.TopicName, c.ChannelName)
+			r := fmt.Sprintf("C%d/%d %d %d %d %d %d %d %d %d n=%d", tid, cid, c.Depth, c.BackendDepth, c.InFlightCount, c.DeferredCount,
+				c.MessageCount, c.RequeueCount, c.TimeoutCount, vfE2SqP(c.Paused), c.ClientCount)
+			if withClients {
+				var cl []string
+				for _, x := range c.Clients {
+					cl = append(cl, fmt.Sprintf("%d:%d:%d:%d:%d", x.ReadyCount, x.InFlightCount, x.MessageCount, x.FinishCount, x.RequeueCount))
+				}
+				sort.Strings(cl)
+				r += " cl=[" + strings.Join(cl, "|") + "]"
+			}
+			rows = append(rows, vfE2SqRow{tid, cid, r})
+		}
+	}
+	return vfE2SqJoin(rows), nil
+}
+
+func vfE2StatsqText(b []byte, withClients bool) string {
+	var rows []vfE2SqRow
+	tid := -1
+	topic := ""
+	cur := -1
+	var cl []string
+	flush := func() {
+		if cur >= 0 && withClients {
+			sort.Strings(cl)
+			rows[cur].s += " cl=[" + strings.Join(cl, "|") + "]"
+		}
+		cl, cur = nil, -1
+	}
+	for _, line := range strings.Split(string(b), "\n") {
+		if m := vfE2TopicRe.FindStringSubmatch(line); m != nil {
+			flush()
+			topic = m[2]
+			tid, _ = vfE2SqIDs(topic, "")
+			rows = append(rows, vfE2SqRow{tid, -1, fmt.Sprintf("T%d %s %s %s %d", tid, m[3], m[4], m[5], vfE2SqP(m[1] == "*P"))})
+		} else if m := vfE2ChanRe.FindStringSubmatch(line); m != nil {
+			flush()
+			_, cid := vfE2SqIDs(topic, m[2])
+			rows = append(rows, vfE2SqRow{tid, cid, fmt.Sprintf("C%d/%d %s %s %s %s %s %s %s %d", tid, cid, m[3], m[4], m[5], m[6], m[9], m[7], m[8], vfE2SqP(m[1] == "*P"))})
+			cur = len(rows) - 1
+		} else if m := vfE2CliRe.FindStringSubmatch(line); m != nil {
+			// state inflt rdy fin re-q msgs  ->  rdy:inflt:msgs:fin:req
+			cl = append(cl, fmt.Sprintf("%s:%s:%s:%s:%s", m[3], m[2], m[6], m[4], m[5]))
+		}
+	}
+	flush()
+	return vfE2SqJoin(rows)
+}
+
+// statsq emits one `statsq` line: the real answer under (format, topic filter, channel filter, include_clients) in the
+// canonical form; the Lean driver answers with Model.ChanStats.rows … of its state under the same filter
+func (h *vfE2H) statsq(format string, ft, fc int, wc bool, body []byte) {
+	var impl string
+	if format == "json" {
+		var err error
+		if impl, err = vfE2StatsqJSON(body, wc); err != nil {
+			return
+		}
+	} else {
+		impl = vfE2StatsqText(body, wc)
+	}
+	f := func(x int) string {
+		if x < 0 {
+			return "-"
+		}
+		return strconv.Itoa(x)
+	}
+	h.emit(fmt.Sprintf("statsq %s %s %s %d", format, f(ft), f(fc), vfE2SqP(wc)), impl)
+	h.count("stats:statsq:" + format)
+}
+
 // statsCheck: C13.5 render_agree (every format x filter combination projects one snapshot),
 // C13.4 nonneg, and the per-channel line compared with the model.
 func (h *vfE2H) statsCheck() {
@@ -1336,9 +1489,11 @@ func (h *vfE2H) statsCheck() {
 			}
 		}
 	}
+	h.statsq("json", -1, -1, true, b)
 	code, tb := h.httpGet("/stats")
 	if code == 200 {
 		cmp("text", vfE2RowsText(tb, true), "", "", true)
+		h.statsq("text", -1, -1, true, tb)
 	} else {
 		h.fail("stats-http", "/stats answered %d", code)
 	}
@@ -1373,8 +1528,27 @@ func (h *vfE2H) statsCheck() {
 				continue
 			}
 			cmp("json "+q, rows, "", cf, wc)
+			// the model filters by channel id: only when the NAME determines it (no c<n> next to c<n>#ephemeral in another topic)
+			_, cfid := vfE2SqIDs("", cf)
+			if cf == "vfe2_nosuch" {
+				cfid = 999999
+			}
+			amb := false
+			for _, tp := range h.sortedTopics() {
+				for _, ch := range tp.sortedChans() {
+					if ch.c == cfid && ch.name != cf {
+						amb = true
+					}
+				}
+			}
+			if !amb {
+				h.statsq("json", -1, cfid, wc, jb)
+			}
 			if code, tb := h.httpGet("/stats?" + q); code == 200 {
 				cmp("text "+q, vfE2RowsText(tb, wc), "", cf, wc)
+				if !amb {
+					h.statsq("text", -1, cfid, wc, tb)
+				}
 			} else {
 				h.fail("stats-http", "/stats?%s answered %d", q, code)
 			}
@@ -1407,9 +1581,15 @@ func (h *vfE2H) statsCheck() {
 					continue
 				}
 				cmp("json "+q, rows, tp.name, cf, wc)
+				cfid := -1
+				if cf != "" {
+					_, cfid = vfE2SqIDs("", cf)
+				}
+				h.statsq("json", tp.t, cfid, wc, jb)
 				code, tb := h.httpGet("/stats?" + q)
 				if code == 200 {
 					cmp("text "+q, vfE2RowsText(tb, wc), tp.name, cf, wc)
+					h.statsq("text", tp.t, cfid, wc, tb)
 				}
 				h.count("stats:query")
 			}
